@@ -288,7 +288,7 @@ def run_case(case):
         kind = "ins" if op.startswith("ins") else "del" if op.startswith("del") else "mnp" if len(op) > 3 else "snp"
         got = s0.coverage.coverage(Mutation(pos, op))
         if got != c * u and kind in ("ins", "del") and "multi-allelic-record" in labels:
-            # recorded finding KF-VCFSHIFT: an insertion / deletion allele of a multi-allelic record that also holds an allele of
+            # (was finding KF-VCFSHIFT, repaired in 4f05ef9; the classification is kept so that a return of it is named) an insertion / deletion allele of a multi-allelic record that also holds an allele of
             # another length is spelled with trailing shared bases; aldy strips shared LEADING bases only, so in a repeat the variant
             # lands at an equivalent position further right than the database's (left-aligned) placement and supports nothing
             # catalogued.  Matched only if the evidence table holds exactly the expected number of observations of an indel of the same
@@ -304,7 +304,7 @@ def run_case(case):
             except Exception:  # noqa
                 eq = []
             if eq:
-                viol.append(V("KF-VCFSHIFT:indel-of-multi-allelic-record-placed-at-an-equivalent-position-in-a-repeat", variant=f"{pos}.{op}",
+                viol.append(V("indel-of-multi-allelic-record-placed-at-an-equivalent-position-in-a-repeat", variant=f"{pos}.{op}",
                               placed=f"{eq[0][0]}.{eq[0][1]}", gene=case.get("gene", "generated")))
                 continue
         if got != c * u:
